@@ -760,6 +760,62 @@ pub fn x_all(rep: &mut Report, mode: Mode, tier: Tier) {
         t.outcome_n("x-all:units", 0);
     });
     rep.absorb(t);
+    // 1b. the *edges of the hex-digit class*: each of the four digits of an escape replaced by the
+    // characters just outside '0'-'9', 'A'-'F', 'a'-'f' ('/', ':', '@', 'G', '`', 'g'), by other
+    // letters, by digits of other scripts and full-width forms, by the characters that end or
+    // continue a string - a digit test written with the wrong radix or with `is_alphanumeric`
+    // accepts some of them
+    {
+        let outsiders = ['/', ':', '@', 'G', '`', 'g', 'h', 'z', 'Z', 'x', 'u', ' ', '"', '\\', '-', '+', '.', '\u{e9}', '\u{663}', '\u{ff11}', '\u{ff21}', '\u{ff46}', '\u{1d7ce}'];
+        let mut t = Tally::new();
+        for base in ["0041", "d83d", "DFFF", "00e9", "ffff"] {
+            for pos in 0..4 {
+                for c in outsiders {
+                    let mut digits: Vec<char> = base.chars().collect();
+                    digits[pos] = c;
+                    let esc: String = digits.into_iter().collect();
+                    for text in [format!("\"\\u{esc}\""), format!("{{\"\\u{esc}\":0}}"), format!("[\"a\\u{esc}\\u0041\"]")] {
+                        x_case(&text, mode, &mut t);
+                    }
+                }
+            }
+        }
+        t.outcome_n("x-all:hex class edges", 0);
+        rep.absorb(t);
+    }
+    // 1c. the edges of every other character class of the grammar: in a dozen short documents each
+    // character in turn is replaced by its two neighbours in code-point order, by its other
+    // case, and by look-alikes (no-break and other Unicode spaces, vertical tab and form feed for
+    // whitespace; full-width and other-script digits, letters and punctuation)
+    {
+        let bases = ["-12.50e+3", "0.5E-7", "10", "true", "false", "null", " [ 1 , 2 ] ", "\t{\n\"a\" : 1\r}", "[true,false,null]", "\"a\\n\\\"b\"", "{\"k\":[]}", "-0"];
+        let lookalikes = ['\u{a0}', '\u{b}', '\u{c}', '\u{85}', '\u{2028}', '\u{3000}', '\u{feff}', '\u{ff10}', '\u{ff11}', '\u{661}', '\u{ff0d}', '\u{2212}', '\u{ff0b}', '\u{ff0e}', '\u{ff45}', '\u{ff3b}', '\u{ff5b}', '\u{ff1a}', '\u{ff0c}', '\u{201c}', '\u{ff02}', '\u{2044}'];
+        let mut t = Tally::new();
+        for base in bases {
+            let chars: Vec<char> = base.chars().collect();
+            for pos in 0..chars.len() {
+                let c = chars[pos];
+                let mut subs: Vec<char> = Vec::new();
+                for d in [-1i32, 1] {
+                    if let Some(n) = char::from_u32((c as i32 + d) as u32) {
+                        subs.push(n);
+                    }
+                }
+                if c.is_ascii_alphabetic() {
+                    subs.push(if c.is_ascii_lowercase() { c.to_ascii_uppercase() } else { c.to_ascii_lowercase() });
+                }
+                subs.extend(lookalikes);
+                for sub in subs {
+                    let mut v = chars.clone();
+                    v[pos] = sub;
+                    let text: String = v.into_iter().collect();
+                    x_case(&text, mode, &mut t);
+                }
+            }
+        }
+        t.outcome_n("x-all:character class edges", 0);
+        rep.absorb(t);
+    }
     // 2. all 1 048 576 high x low pairs
     let highs: Vec<u32> = (0xD800..0xDC00u32).collect();
     let t = explore::par_tally(highs, |h, t| {
@@ -1083,6 +1139,25 @@ fn x_case_struct(text: &str, mode: Mode, t: &mut Tally) {
         }
     }
     t.nontrivial(&text);
+}
+
+/// Strings and keys beyond a megabyte, *followed by other strings* (C02, C05): a scratch buffer
+/// that is reused between strings and trimmed above some size limit has its boundary far above
+/// the pumped families (65 537); the document after the long string is what shows a stale buffer.
+pub fn huge_strings(rep: &mut Report, mode: Mode) {
+    let mut t = Tally::new();
+    let sizes = [(1usize << 20) - 1, 1 << 20, (1 << 20) + 1, (1 << 21) + 3];
+    for n in sizes {
+        for unit in ["a", "\u{e9}", "\\n"] {
+            let body = unit.repeat(n / unit.len().min(2).max(1));
+            for doc in [format!("[\"{body}\",\"b\",{{\"k\":\"v\"}}]"), format!("{{\"{body}\":\"first\",\"x\":\"y\",\"z\":[\"w\"]}}"), format!("[\"p\",\"{body}\",\"q\",\"{body}\",\"r\"]")] {
+                x_case_struct(&doc, mode, &mut t);
+            }
+        }
+    }
+    t.outcome("huge strings followed by other strings");
+    rep.bounds["huge_strings"] = json!({"string_lengths": sizes, "string_kinds": ["ASCII", "two-byte characters", "escapes"], "documents_per_length_and_kind": 3});
+    rep.absorb(t);
 }
 
 /// Objects with every pattern of duplicated keys (C02, C05): every value with at most N nodes
